@@ -200,3 +200,46 @@ Proof.
     destruct (Hi i) as [H1 H2]. rewrite H1, H2, Ht. match goal with |- context [snd (e_inst ?x i)] => destruct (snd (e_inst x i)) end; reflexivity.
   - (* EGetTls *) f_equal. unfold observe. cbn [eop_step reads map decode_get]. exact Ht.
 Qed.
+
+(* ---- nested use (a tj3Transform custom filter calling TurboJPEG on another instance x while the call on y is active):
+   the inner call's events lie between the outer call's entry and its failure.  Both instances keep their own message,
+   whatever instance-less failures and queries follow. *)
+Definition getv (s : est) (i : nat) : Z := if snd (e_inst s i) then fst (e_inst s i) else e_tls s.
+
+Theorem errstr_nested_proof :
+  forall pre y x m mx inner2 mid s,
+    x <> y ->
+    forallb (fun o => negb (touches_inst x o) && negb (touches_inst y o)) inner2 = true ->
+    forallb (fun o => negb (touches_inst x o) && negb (touches_inst y o)) mid = true ->
+    exists rs,
+      snd (erun (pre ++ [ECall y] ++ [EFail x mx] ++ inner2 ++ [EFail y m] ++ mid ++ [EGet y; EGet x]) s) = (rs ++ [m; mx])%list.
+Proof.
+  intros pre y x m mx inner2 mid s Hxy Hin Hmid.
+  assert (Hsplit : forall l, forallb (fun o => negb (touches_inst x o) && negb (touches_inst y o)) l = true ->
+             forallb (fun o => negb (touches_inst x o)) l = true /\ forallb (fun o => negb (touches_inst y o)) l = true).
+  { induction l as [|o l IH]; cbn; [auto|]. intros H. apply andb_true_iff in H. destruct H as [Ho Hl].
+    apply andb_true_iff in Ho. destruct Ho as [H1 H2]. destruct (IH Hl) as [I1 I2]. rewrite H1, H2, I1, I2. auto. }
+  destruct (Hsplit _ Hin) as [Hin_x Hin_y]. destruct (Hsplit _ Hmid) as [Hmid_x Hmid_y].
+  replace (pre ++ [ECall y] ++ [EFail x mx] ++ inner2 ++ [EFail y m] ++ mid ++ [EGet y; EGet x])%list
+    with ((pre ++ [ECall y; EFail x mx]) ++ (inner2 ++ [EFail y m] ++ mid) ++ [EGet y; EGet x])%list
+    by (rewrite <- !app_assoc; reflexivity).
+  rewrite erun_app. destruct (erun (pre ++ [ECall y; EFail x mx]) s) as [s1 r1] eqn:E1.
+  rewrite erun_app. destruct (erun (inner2 ++ [EFail y m] ++ mid) s1) as [s2 r2] eqn:E2.
+  (* state of x after the prefix: its own failure *)
+  assert (Hx1 : e_inst s1 x = (mx, true)).
+  { rewrite erun_app in E1. destruct (erun pre s) as [s0 r0]. cbn in E1. inversion E1; subst. cbn [e_inst]. unfold upd_inst.
+    rewrite Nat.eqb_refl. reflexivity. }
+  assert (Hx2 : e_inst s2 x = (mx, true)).
+  { assert (Hnt : forallb (fun o => negb (touches_inst x o)) (inner2 ++ [EFail y m] ++ mid) = true).
+    { rewrite !forallb_app, Hin_x, Hmid_x. cbn. apply Nat.eqb_neq in Hxy. rewrite Nat.eqb_sym in Hxy. rewrite ?andb_true_r. cbn. rewrite Hxy. reflexivity. }
+    pose proof (untouched_inst x _ s1 Hnt) as Hu. rewrite E2 in Hu. cbn [fst] in Hu. rewrite Hu. exact Hx1. }
+  assert (Hy2 : e_inst s2 y = (m, true)).
+  { rewrite erun_app in E2. destruct (erun inner2 s1) as [s3 r3] eqn:E3.
+    change ([EFail y m] ++ mid)%list with (EFail y m :: mid) in E2. cbn [erun estep] in E2.
+    set (s4 := mk_est (upd_inst (e_inst s3) y (m, true)) m) in E2.
+    pose proof (untouched_inst y mid s4 Hmid_y) as Hu.
+    destruct (erun mid s4) as [s5 r5] eqn:E5. cbn [fst] in Hu. inversion E2; subst.
+    rewrite Hu. unfold s4. cbn [e_inst]. unfold upd_inst. rewrite Nat.eqb_refl. reflexivity. }
+  cbn [erun estep snd]. rewrite Hx2, Hy2. cbn [fst snd].
+  exists (r1 ++ r2)%list. rewrite <- app_assoc. reflexivity.
+Qed.
